@@ -88,7 +88,25 @@ Definition completes_value (g : Z) (st' : list Z) : Prop :=
   g = G_Literal \/ g = G_Number \/ g = G_EndObject \/ g = G_EndArray \/
   (g = G_String /\ top st' <> Some S_ObjectValue).
 
-Definition step_ok (d : list Z) (pos0 : Z) (p : parser) (r : option (unit_ * parser)) : Prop :=
+(* whitespace runs; the exact shape of a unit; where a unit ends *)
+Definition wsl (w : list Z) : Prop := Forall (fun c => is_ws c = true) w.
+
+Definition tok_ok (g : Z) (b : list Z) : Prop :=
+  (g = G_StartObject /\ b = [123]) \/ (g = G_EndObject /\ b = [125]) \/
+  (g = G_StartArray /\ b = [91]) \/ (g = G_EndArray /\ b = [93]) \/
+  (g = G_Number /\ exists s r, num_split s = Some (b, r)) \/
+  (g = G_Literal /\ (b = TRUE \/ b = FALSE \/ b = NULL)) \/
+  (g = G_String /\ exists body, b = 34 :: body ++ [34] /\ Forall (fun c => c <> 0) body).
+
+(* a unit ends at the cursor, except a key: the call also consumes whitespace and the colon after it *)
+Definition unit_end (d : list Z) (p' : parser) (g lo : Z) (b : list Z) : Prop :=
+  lo + len b = lpos (pz p') \/
+  (g = G_String /\ top (pst p') = Some S_ObjectValue /\
+   exists w2, wsl w2 /\ slice d (lo + len b) (lpos (pz p')) = w2 ++ [58]).
+
+(* G g lo: what is known about the start lo of a unit of type g (instantiated in next_ok with the description
+   of the bytes between the old cursor and lo) *)
+Definition step_okG (d : list Z) (pos0 : Z) (G : Z -> Z -> Prop) (p : parser) (r : option (unit_ * parser)) : Prop :=
   exists u p', r = Some (u, p') /\ json_inv d p' /\ prd p' = prd p /\ pos0 <= lpos (pz p') /\
     st_rel (pst p) (fst u) (pst p') /\
     match snd u with
@@ -101,21 +119,34 @@ Definition step_ok (d : list Z) (pos0 : Z) (p : parser) (r : option (unit_ * par
               (lpos (pz p') = pos0 -> pneed p' = pneed p \/ pneed p' = true)
     | Some (lo, b) => fst u <> G_Error /\ b <> [] /\ pos0 <= lo /\ b = slice d lo (lo + len b) /\
                       lo + len b <= lpos (pz p') /\ perr p' = perr p /\ lstart (pz p') = lpos (pz p') /\
-                      (completes_value (fst u) (pst p') -> pneed p' = true)
+                      (completes_value (fst u) (pst p') -> pneed p' = true) /\
+                      tok_ok (fst u) b /\ G (fst u) lo /\ unit_end d p' (fst u) lo b
     end.
+
+(* the bytes between the cursor before the call (pos0) and the start of the unit: whitespace - and then a unit
+   other than a closer requires needComma to be false - or whitespace , whitespace inside an array or in key
+   position *)
+Definition gapG (d : list Z) (pos0 : Z) (p : parser) (g lo : Z) : Prop :=
+  exists lead, slice d pos0 lo = lead /\ lo = pos0 + len lead /\
+    ((wsl lead /\ (pneed p = true -> g = G_EndObject \/ g = G_EndArray)) \/
+     (exists w w', lead = w ++ 44 :: w' /\ wsl w /\ wsl w' /\
+                   (top (pst p) = Some S_Array \/ top (pst p) = Some S_ObjectKey))).
+
+Definition step_ok (d : list Z) (pos0 : Z) (p : parser) (r : option (unit_ * parser)) : Prop :=
+  step_okG d pos0 (gapG d pos0 p) p r.
 
 Lemma len_app3_le (a tok s : list Z) : 0 <= len a + len tok <= len (a ++ tok ++ s).
 Proof.
   rewrite !len_app. pose proof (len_nonneg a). pose proof (len_nonneg tok). pose proof (len_nonneg s). lia.
 Qed.
 
-Lemma fail_ok d pos0 p z a tok s st need :
+Lemma fail_ok d pos0 (G : Z -> Z -> Prop) p z a tok s st need :
   cur3 z a tok s -> d = a ++ tok ++ s -> stack_ok st -> pos0 <= lpos z ->
   st_rel (pst p) G_Error st ->
   need = pneed p \/ need = true \/ pos0 < len a ->
-  step_ok d pos0 p (fail_at p z st need).
+  step_okG d pos0 G p (fail_at p z st need).
 Proof.
-  intros Hc Hd Hst Hpos Hrel Hnm. unfold step_ok, fail_at.
+  intros Hc Hd Hst Hpos Hrel Hnm. unfold step_okG, fail_at.
   eexists _, _. split; [reflexivity|]. cbn [pz pst perr prd pneed fst snd].
   split.
   { exists a, tok, s. cbn [pz pst perr]. split; [exact Hd|]. split; [exact Hc|]. split; [exact Hst|].
@@ -126,13 +157,13 @@ Proof.
   destruct Hnm as [H1|[H1|H1]]; [left; exact H1|right; exact H1|lia].
 Qed.
 
-Lemma emit_ok d pos0 p g z a tok s st need :
+Lemma emit_ok d pos0 (G : Z -> Z -> Prop) p g z a tok s st need :
   cur3 z a tok s -> tok <> [] -> d = a ++ tok ++ s -> stack_ok st -> pos0 <= len a ->
   g <> G_Error -> st_rel (pst p) g st -> err_in_range d (perr p) ->
-  (completes_value g st -> need = true) ->
-  step_ok d pos0 p (emit p g z st need).
+  (completes_value g st -> need = true) -> tok_ok g tok -> G g (len a) ->
+  step_okG d pos0 G p (emit p g z st need).
 Proof.
-  intros Hc Htok Hd Hst Hpos Hg Hrel Herr Hneed. unfold step_ok, emit.
+  intros Hc Htok Hd Hst Hpos Hg Hrel Herr Hneed Htk HG. unfold step_okG, emit.
   rewrite (cur3_shift _ _ _ _ Hc). cbn [option_bind fst snd].
   pose proof (cur3_skip _ _ _ _ Hc) as Hsk.
   eexists _, _. split; [reflexivity|]. cbn [pz pst perr prd fst snd].
@@ -148,20 +179,58 @@ Proof.
   split. { subst d. rewrite slice_mid. reflexivity. }
   split. { rewrite (cur3_lpos _ _ _ _ Hsk). rewrite len_app, len_nil. lia. }
   split; [reflexivity|].
-  split; [|exact Hneed].
-  rewrite (cur3_lpos _ _ _ _ Hsk), (cur3_lstart _ _ _ _ Hsk). rewrite len_nil. lia.
+  split. { rewrite (cur3_lpos _ _ _ _ Hsk), (cur3_lstart _ _ _ _ Hsk). rewrite len_nil. lia. }
+  split; [exact Hneed|]. split; [exact Htk|]. split; [exact HG|].
+  unfold unit_end. cbn [pz]. left. rewrite (cur3_lpos _ _ _ _ Hsk). rewrite len_app, len_nil. lia.
+Qed.
+
+(* shapes produced by the string loop *)
+Lemma str_split_true_shape t : forall revlex, fst (str_split revlex t) = true ->
+  exists body, fst (snd (str_split revlex t)) = body ++ [34] /\ Forall (fun c => c <> 0) body.
+Proof.
+  induction t as [|c t IH]; intros revlex H; cbn [str_split] in *; [discriminate|].
+  destruct (c =? 34) eqn:E34.
+  - destruct (esc_parity revlex false); cbn [fst snd] in *.
+    + destruct (IH _ H) as (body & E & Hf). exists (c :: body). rewrite E. split; [reflexivity|].
+      constructor; [lia|exact Hf].
+    + exists []. split; [cbn; f_equal; lia|constructor].
+  - destruct (c =? 0) eqn:E0; cbn [fst snd] in *; [discriminate|].
+    destruct (IH _ H) as (body & E & Hf). exists (c :: body). rewrite E. split; [reflexivity|].
+    constructor; [lia|exact Hf].
+Qed.
+
+Lemma str_split_false_hd t : forall revlex, fst (str_split revlex t) = false ->
+  hd0 (snd (snd (str_split revlex t))) = 0.
+Proof.
+  induction t as [|c t IH]; intros revlex H; cbn [str_split] in *; [reflexivity|].
+  destruct (c =? 34) eqn:E34.
+  - destruct (esc_parity revlex false); cbn [fst snd] in *; [apply IH; exact H|discriminate].
+  - destruct (c =? 0) eqn:E0; cbn [fst snd] in *; [cbn [hd0]; lia|apply IH; exact H].
+Qed.
+
+Lemma num_split_hd s x r : num_split s = Some (x, r) -> hd0 s <> 0.
+Proof.
+  unfold num_split. destruct s as [|c t]; cbn [sign_split int_split]; [discriminate|].
+  destruct (c =? 45) eqn:E; [cbn [hd0]; lia|]. cbn [int_split]. unfold d19.
+  destruct ((49 <=? c) && (c <=? 57)) eqn:E1; [cbn [hd0]; lia|].
+  destruct (negb (c =? 48)) eqn:E2; [discriminate|]. cbn [hd0]. lia.
+Qed.
+
+Lemma lit_split_hd s x r : lit_split s = Some (x, r) -> hd0 s <> 0.
+Proof.
+  intros H. destruct (lit_split_app _ _ _ H) as [-> [->|[->| ->]]]; cbn; lia.
 Qed.
 
 Lemma hd0_cons_inv s c : hd0 s = c -> c <> 0 -> exists t, s = c :: t.
 Proof. destruct s as [|x t]; cbn [hd0]; intros H Hc; [congruence|]. exists t. congruence. Qed.
 
 (* --- the ObjectKey block ---------------------------------------------------------------------- *)
-Lemma next_key_ok d pos0 p z2 a s2 need st0 :
+Lemma next_key_ok d pos0 (G : Z -> Z -> Prop) p z2 a s2 need st0 :
   cur3 z2 a [] s2 -> d = a ++ s2 -> pst p = S_ObjectKey :: st0 -> stack_ok (pst p) -> pos0 <= len a ->
-  err_in_range d (perr p) -> need = pneed p \/ pos0 < len a ->
-  step_ok d pos0 p (next_key p z2 (hd0 s2) need).
+  err_in_range d (perr p) -> need = pneed p \/ pos0 < len a -> (hd0 s2 = 34 -> G G_String (len a)) ->
+  step_okG d pos0 G p (next_key p z2 (hd0 s2) need).
 Proof.
-  intros H2 Hd Hst Hok Hpos Herr Hnd.
+  intros H2 Hd Hst Hok Hpos Herr Hnd HG.
   assert (Hnm : need = pneed p \/ need = true \/ pos0 < len a) by (destruct Hnd; auto).
   unfold next_key.
   destruct (negb (hd0 s2 =? 34)) eqn:E34.
@@ -173,7 +242,7 @@ Proof.
   set (r := str_split (rev [34]) t) in *.
   rewrite Hcs. cbn [option_bind fst snd].
   pose proof (str_split_app t (rev [34])) as Happ. fold r in Happ.
-  destruct (fst r).
+  destruct (fst r) eqn:Efr.
   2:{ cbn [negb]. eapply fail_ok; [exact H3| |exact Hok| |apply sr_err|exact Hnm].
       - rewrite Hd. cbn [app]. rewrite Happ. reflexivity.
       - rewrite (cur3_lpos _ _ _ _ H3). pose proof (len_nonneg (34 :: fst (snd r))). lia. }
@@ -202,7 +271,9 @@ Proof.
   { rewrite <- app_assoc. apply firstz_app_len. }
   rewrite Hf.
   pose proof (cur3_skip _ _ _ _ H5) as H6.
-  unfold step_ok. eexists _, _. split; [reflexivity|]. cbn [pz pst perr prd fst snd].
+  assert (Hshape : exists body, x = body ++ [34] /\ Forall (fun c => c <> 0) body).
+  { apply (str_split_true_shape t (rev [34])). fold r. exact Efr. }
+  unfold step_okG. eexists _, _. split; [reflexivity|]. cbn [pz pst perr prd fst snd].
   split.
   { exists (a ++ ((34 :: x) ++ w) ++ [58]), [], s5. cbn [pz pst perr].
     split; [|split; [exact H6|split; [|exact Herr]]].
@@ -221,70 +292,97 @@ Proof.
            change (len [58]) with 1. lia. }
   split; [reflexivity|].
   split. { rewrite (cur3_lpos _ _ _ _ H6), (cur3_lstart _ _ _ _ H6). rewrite len_nil. lia. }
-  unfold completes_value, G_String, G_Literal, G_Number, G_EndObject, G_EndArray. cbn [top].
-  intros [Hq|[Hq|[Hq|[Hq|[_ Hq]]]]]; try discriminate. congruence.
+  split.
+  { unfold completes_value, G_String, G_Literal, G_Number, G_EndObject, G_EndArray. cbn [top].
+    intros [Hq|[Hq|[Hq|[Hq|[_ Hq]]]]]; try discriminate. congruence. }
+  split.
+  { do 6 right. split; [reflexivity|]. destruct Hshape as (body & Hxb & Hnz). exists body. rewrite Hxb. auto. }
+  split; [apply HG; reflexivity|].
+  unfold unit_end. cbn [pz pst top]. right. split; [reflexivity|]. split; [reflexivity|]. exists w. split; [apply takew_all|].
+  rewrite (cur3_lpos _ _ _ _ H6). rewrite Hd4, Hs5. rewrite len_nil.
+  replace (a ++ ((34 :: x) ++ w) ++ 58 :: s5) with (a ++ (34 :: x) ++ (w ++ [58]) ++ s5)
+    by (rewrite <- !app_assoc; reflexivity).
+  replace (len (a ++ ((34 :: x) ++ w) ++ [58]) + 0) with ((len a + len (34 :: x)) + len (w ++ [58]))
+    by (rewrite !len_app; lia).
+  rewrite app_assoc. rewrite <- len_app. apply slice_mid.
 Qed.
 
 (* --- the value block --------------------------------------------------------------------------- *)
-Lemma emit_value_ok d pos0 p g z a tok s state :
+Lemma emit_value_ok d pos0 (G : Z -> Z -> Prop) p g z a tok s state :
   cur3 z a tok s -> tok <> [] -> d = a ++ tok ++ s -> top (pst p) = Some state -> state <> S_ObjectKey ->
   stack_ok (pst p) -> pos0 <= len a -> g = G_Literal \/ g = G_Number \/ g = G_String ->
-  err_in_range d (perr p) ->
-  step_ok d pos0 p (emit_value p g z state).
+  err_in_range d (perr p) -> tok_ok g tok -> G g (len a) ->
+  step_okG d pos0 G p (emit_value p g z state).
 Proof.
-  intros Hc Htok Hd Htop Hstate Hok Hpos Hg Herr. unfold emit_value.
+  intros Hc Htok Hd Htop Hstate Hok Hpos Hg Herr Htk HG. unfold emit_value.
   assert (Hst' : (if state =? S_ObjectValue then set_top (pst p) S_ObjectKey else Some (pst p))
                  = Some (valfix (pst p))).
   { destruct (pst p) as [|s0 t0] eqn:Ep; [discriminate|]. cbn in Htop. inversion Htop; subst s0.
     cbn [valfix set_top]. destruct (state =? S_ObjectValue); reflexivity. }
   rewrite Hst'. cbn [option_bind].
-  apply (emit_ok d pos0 p g z a tok s); auto.
+  apply (emit_ok d pos0 G p g z a tok s); auto.
   - apply stack_ok_valfix. exact Hok.
   - unfold G_Literal, G_Number, G_String, G_Error in *. lia.
   - destruct (pst p) as [|s0 t0] eqn:Ep; [discriminate|]. cbn in Htop. inversion Htop; subst s0.
     apply sr_val; assumption.
 Qed.
 
-Lemma next_value_ok d pos0 p z2 a s2 need state :
+Lemma next_value_ok d pos0 (G : Z -> Z -> Prop) p z2 a s2 need state :
   cur3 z2 a [] s2 -> d = a ++ s2 -> top (pst p) = Some state -> state <> S_ObjectKey ->
   stack_ok (pst p) -> pos0 <= len a -> err_in_range d (perr p) -> need = pneed p \/ pos0 < len a ->
-  step_ok d pos0 p (next_value p z2 (hd0 s2) need state).
+  (forall g, g = G_Literal \/ g = G_Number \/ g = G_String -> hd0 s2 <> 0 -> G g (len a)) ->
+  step_okG d pos0 G p (next_value p z2 (hd0 s2) need state).
 Proof.
-  intros H2 Hd Htop Hstate Hok Hpos Herr Hnd.
+  intros H2 Hd Htop Hstate Hok Hpos Herr Hnd HG.
   assert (Hnm : need = pneed p \/ need = true \/ pos0 < len a) by (destruct Hnd; auto).
   unfold next_value.
   (* string attempt *)
   assert (Hstr : exists ok z3 tok3 s3,
             (if hd0 s2 =? 34 then consume_string z2 else Some (false, z2)) = Some (ok, z3) /\
-            cur3 z3 a tok3 s3 /\ s2 = tok3 ++ s3 /\ (ok = true -> tok3 <> [])).
+            cur3 z3 a tok3 s3 /\ s2 = tok3 ++ s3 /\
+            (ok = true -> hd0 s2 = 34 /\ exists body, tok3 = 34 :: body ++ [34] /\ Forall (fun c => c <> 0) body) /\
+            (ok = false -> (tok3 = [] /\ s3 = s2) \/ hd0 s3 = 0)).
   { destruct (hd0 s2 =? 34) eqn:E34.
     - apply Z.eqb_eq in E34. destruct (hd0_cons_inv s2 34 E34 ltac:(lia)) as (t & ->).
       destruct (consume_string_spec z2 a [] 34 t H2) as (z3 & Hcs & H3). cbn [app] in *.
       eexists _, z3, _, _. split; [exact Hcs|]. split; [exact H3|]. split.
       + cbn [app]. f_equal. symmetry. apply str_split_app.
-      + intros _. discriminate.
-    - exists false, z2, [], s2. split; [reflexivity|]. split; [exact H2|]. split; [reflexivity|]. discriminate. }
-  destruct Hstr as (ok & z3 & tok3 & s3 & Hs & H3 & Hs2 & Hne). rewrite Hs. cbn [option_bind fst snd].
+      + split.
+        * intros Hok1. split; [reflexivity|].
+          destruct (str_split_true_shape t (rev [34]) Hok1) as (body & E & Hf). exists body. rewrite E. auto.
+        * intros Hok0. right. apply str_split_false_hd. exact Hok0.
+    - exists false, z2, [], s2. split; [reflexivity|]. split; [exact H2|]. split; [reflexivity|].
+      split; [discriminate|]. intros _. left. auto. }
+  destruct Hstr as (ok & z3 & tok3 & s3 & Hs & H3 & Hs2 & Hne & Hfalse). rewrite Hs. cbn [option_bind fst snd].
   assert (Hd3 : d = a ++ tok3 ++ s3) by (rewrite Hd, Hs2; reflexivity).
   destruct ok.
-  { apply (emit_value_ok d pos0 p G_String z3 a tok3 s3 state); auto. }
+  { destruct (Hne eq_refl) as (H34 & body & Etok & Hf).
+    apply (emit_value_ok d pos0 G p G_String z3 a tok3 s3 state); auto.
+    - rewrite Etok. discriminate.
+    - do 6 right. split; [reflexivity|]. exists body. auto.
+    - apply HG; [auto|lia]. }
   (* number attempt *)
   pose proof (consume_number_spec z3 a tok3 s3 H3) as Hn.
   destruct (num_split s3) as [[xn rn]|] eqn:En.
   { destruct Hn as (z4 & Hn & H4). rewrite Hn. cbn [option_bind fst snd].
     destruct (num_split_app _ _ _ En) as [Hsn Hxn].
-    apply (emit_value_ok d pos0 p G_Number z4 a (tok3 ++ xn) rn state); auto.
-    - destruct tok3; [exact Hxn|discriminate].
-    - rewrite Hd3, Hsn. rewrite <- app_assoc. reflexivity. }
+    destruct (Hfalse eq_refl) as [[-> ->]|H0]; [|exfalso; exact (num_split_hd _ _ _ En H0)].
+    apply (emit_value_ok d pos0 G p G_Number z4 a ([] ++ xn) rn state); auto.
+    - rewrite Hd3, Hsn. reflexivity.
+    - do 4 right. left. split; [reflexivity|]. exists s2, rn. exact En.
+    - apply HG; [auto|]. exact (num_split_hd _ _ _ En). }
   destruct Hn as (z4 & Hn & H4). rewrite Hn. cbn [option_bind fst snd].
   (* literal attempt *)
   pose proof (consume_literal_spec z4 a tok3 s3 H4) as Hl.
   destruct (lit_split s3) as [[xl rl]|] eqn:El.
   { destruct Hl as (z5 & Hl & H5). rewrite Hl. cbn [option_bind fst snd].
     destruct (lit_split_app _ _ _ El) as [Hsl Hxl].
-    apply (emit_value_ok d pos0 p G_Literal z5 a (tok3 ++ xl) rl state); auto.
-    - destruct Hxl as [->|[->| ->]]; destruct tok3; discriminate.
-    - rewrite Hd3, Hsl. rewrite <- app_assoc. reflexivity. }
+    destruct (Hfalse eq_refl) as [[-> ->]|H0]; [|exfalso; exact (lit_split_hd _ _ _ El H0)].
+    apply (emit_value_ok d pos0 G p G_Literal z5 a ([] ++ xl) rl state); auto.
+    - destruct Hxl as [->|[->| ->]]; discriminate.
+    - rewrite Hd3, Hsl. reflexivity.
+    - do 5 right. left. split; [reflexivity|]. exact Hxl.
+    - apply HG; [auto|]. exact (lit_split_hd _ _ _ El). }
   rewrite Hl. cbn [option_bind fst snd].
   rewrite (cur3_pk0 _ _ _ _ H4). cbn [option_bind].
   assert (Hp4 : pos0 <= lpos z4).
@@ -294,7 +392,7 @@ Proof.
   destruct (hd0 s3 =? 0) eqn:E0.
   2:{ eapply fail_ok; [exact H4|exact Hd3|exact Hok|exact Hp4|apply sr_err|exact Hnm]. }
   (* the end-of-input report *)
-  unfold step_ok. eexists _, _. split; [reflexivity|]. cbn [pz pst perr prd fst snd].
+  unfold step_okG. eexists _, _. split; [reflexivity|]. cbn [pz pst perr prd fst snd].
   split. { exists a, tok3, s3. cbn [pz pst perr]. auto. }
   split; [reflexivity|]. split; [exact Hp4|]. split; [apply sr_err|].
   split; [reflexivity|]. split.
@@ -309,12 +407,13 @@ Proof.
 Qed.
 
 (* --- after the comma block ---------------------------------------------------------------------- *)
-Lemma next_body_ok d pos0 p z1 a tok1 s2 need state :
+Lemma next_body_ok d pos0 (G : Z -> Z -> Prop) p z1 a tok1 s2 need state :
   cur3 z1 a tok1 s2 -> d = a ++ tok1 ++ s2 -> top (pst p) = Some state -> stack_ok (pst p) ->
   pos0 <= len a + len tok1 -> err_in_range d (perr p) -> need = pneed p \/ pos0 < len a + len tok1 ->
-  step_ok d pos0 p (next_body p z1 (hd0 s2) need state).
+  (forall g, (need = true -> g = G_EndObject \/ g = G_EndArray) -> G g (len (a ++ tok1))) ->
+  step_okG d pos0 G p (next_body p z1 (hd0 s2) need state).
 Proof.
-  intros H1 Hd Htop Hok Hpos Herr Hnd.
+  intros H1 Hd Htop Hok Hpos Herr Hnd HG.
   assert (Hnd2 : need = pneed p \/ pos0 < len (a ++ tok1)) by (rewrite len_app; exact Hnd).
   assert (Hnm : forall nd', nd' = need \/ nd' = true -> nd' = pneed p \/ nd' = true \/ pos0 < len (a ++ tok1)).
   { intros nd' [->| ->]; [destruct Hnd2; auto|auto]. }
@@ -324,23 +423,30 @@ Proof.
   assert (Hp2 : pos0 <= lpos (skip z1)).
   { rewrite (cur3_lpos _ _ _ _ H2). rewrite len_app, len_nil. lia. }
   assert (Hpa : pos0 <= len (a ++ tok1)) by (rewrite len_app; lia).
-  destruct (need && negb (hd0 s2 =? 125) && negb (hd0 s2 =? 93) && negb (hd0 s2 =? 0)).
+  destruct (need && negb (hd0 s2 =? 125) && negb (hd0 s2 =? 93) && negb (hd0 s2 =? 0)) eqn:Ecomma.
   { eapply fail_ok; [exact H2|exact Hd2|exact Hok|exact Hp2|apply sr_err|apply Hnm; auto]. }
+  (* a unit other than a closer is only produced with needComma false *)
+  assert (HGo : forall g, hd0 s2 <> 125 -> hd0 s2 <> 93 -> hd0 s2 <> 0 -> G g (len (a ++ tok1))).
+  { intros g Hc1 Hc2 Hc3. apply HG. intros Hn1. rewrite Hn1 in Ecomma. exfalso. lia. }
+  assert (HGc : forall g, g = G_EndObject \/ g = G_EndArray -> G g (len (a ++ tok1))).
+  { intros g Hg. apply HG. intros _. exact Hg. }
   (* the four brackets: the cursor moves over one byte *)
   assert (Hbr : forall c g st', hd0 s2 = c -> c <> 0 -> g <> G_Error -> stack_ok st' -> st_rel (pst p) g st' ->
-             forall nd, (completes_value g st' -> nd = true) ->
-                        step_ok d pos0 p (emit p g (mv (skip z1) 1) st' nd)).
-  { intros c g st' Hc Hc0 Hg Hst' Hrel nd Hcv. destruct (hd0_cons_inv s2 c Hc Hc0) as (t & Hs2).
+             forall nd, (completes_value g st' -> nd = true) -> tok_ok g [c] -> G g (len (a ++ tok1)) ->
+                        step_okG d pos0 G p (emit p g (mv (skip z1) 1) st' nd)).
+  { intros c g st' Hc Hc0 Hg Hst' Hrel nd Hcv Htk HGg. destruct (hd0_cons_inv s2 c Hc Hc0) as (t & Hs2).
     rewrite Hs2 in H2. pose proof (cur3_mv1 _ _ _ _ _ H2) as H3.
-    apply (emit_ok d pos0 p g _ (a ++ tok1) ([] ++ [c]) t); auto.
+    apply (emit_ok d pos0 G p g _ (a ++ tok1) ([] ++ [c]) t); auto.
     - discriminate.
     - rewrite Hd2, Hs2. reflexivity. }
   destruct ((hd0 s2 =? 123) && negb (state =? S_ObjectKey)) eqn:E1.
   { apply andb_true_iff in E1. destruct E1 as [E1 Ek1]. apply Z.eqb_eq in E1.
-    apply (Hbr 123 G_StartObject (S_ObjectKey :: pst p)); [exact E1|lia|discriminate| |apply sr_start_obj|].
+    apply (Hbr 123 G_StartObject (S_ObjectKey :: pst p)); [exact E1|lia|discriminate| |apply sr_start_obj| | |].
     - apply stack_ok_push; [exact Hok|left; reflexivity].
     - rewrite Htop. intros Hq. inversion Hq. lia.
-    - unfold completes_value, G_StartObject, G_Literal, G_Number, G_EndObject, G_EndArray, G_String. intros Hq. lia. }
+    - unfold completes_value, G_StartObject, G_Literal, G_Number, G_EndObject, G_EndArray, G_String. intros Hq. lia.
+    - left. auto.
+    - apply HGo; lia. }
   destruct (hd0 s2 =? 125) eqn:E2.
   { apply Z.eqb_eq in E2.
     destruct (negb (state =? S_ObjectKey)) eqn:Es.
@@ -348,14 +454,18 @@ Proof.
     apply negb_false_iff in Es. apply Z.eqb_eq in Es. subst state.
     destruct (pop_fix_ok _ _ Hok Htop ltac:(discriminate)) as (t & Hst & Hokt & Hpop).
     rewrite Hpop. cbn [option_bind].
-    apply (Hbr 125 G_EndObject (valfix t)); [exact E2|lia|discriminate| |rewrite Hst; apply sr_end_obj|reflexivity].
-    apply stack_ok_valfix. exact Hokt. }
+    apply (Hbr 125 G_EndObject (valfix t)); [exact E2|lia|discriminate| |rewrite Hst; apply sr_end_obj|reflexivity| |].
+    - apply stack_ok_valfix. exact Hokt.
+    - right. left. auto.
+    - apply HGc. auto. }
   destruct ((hd0 s2 =? 91) && negb (state =? S_ObjectKey)) eqn:E3.
   { apply andb_true_iff in E3. destruct E3 as [E3 Ek3]. apply Z.eqb_eq in E3.
-    apply (Hbr 91 G_StartArray (S_Array :: pst p)); [exact E3|lia|discriminate| |apply sr_start_arr|].
+    apply (Hbr 91 G_StartArray (S_Array :: pst p)); [exact E3|lia|discriminate| |apply sr_start_arr| | |].
     - apply stack_ok_push; [exact Hok|right; right; reflexivity].
     - rewrite Htop. intros Hq. inversion Hq. lia.
-    - unfold completes_value, G_StartArray, G_Literal, G_Number, G_EndObject, G_EndArray, G_String. intros Hq. lia. }
+    - unfold completes_value, G_StartArray, G_Literal, G_Number, G_EndObject, G_EndArray, G_String. intros Hq. lia.
+    - do 2 right. left. auto.
+    - apply HGo; lia. }
   destruct (hd0 s2 =? 93) eqn:E4.
   { apply Z.eqb_eq in E4.
     destruct (negb (state =? S_Array)) eqn:Es.
@@ -363,30 +473,38 @@ Proof.
     apply negb_false_iff in Es. apply Z.eqb_eq in Es. subst state.
     destruct (pop_fix_ok _ _ Hok Htop ltac:(discriminate)) as (t & Hst & Hokt & Hpop).
     rewrite Hpop. cbn [option_bind].
-    apply (Hbr 93 G_EndArray (valfix t)); [exact E4|lia|discriminate| |rewrite Hst; apply sr_end_arr|reflexivity].
-    apply stack_ok_valfix. exact Hokt. }
+    apply (Hbr 93 G_EndArray (valfix t)); [exact E4|lia|discriminate| |rewrite Hst; apply sr_end_arr|reflexivity| |].
+    - apply stack_ok_valfix. exact Hokt.
+    - do 3 right. left. auto.
+    - apply HGc. auto. }
   destruct (state =? S_ObjectKey) eqn:Ek.
   - apply Z.eqb_eq in Ek. subst state.
     destruct (pst p) as [|s0 st0] eqn:Ep; [discriminate|]. cbn in Htop. inversion Htop; subst s0.
-    rewrite <- Ep in Hok. eapply (next_key_ok d pos0 p (skip z1) (a ++ tok1) s2 need st0); eauto.
+    rewrite <- Ep in Hok. eapply (next_key_ok d pos0 G p (skip z1) (a ++ tok1) s2 need st0); eauto.
+    intros H34. apply HGo; lia.
   - apply Z.eqb_neq in Ek.
-    apply (next_value_ok d pos0 p (skip z1) (a ++ tok1) s2 need state); auto.
+    apply (next_value_ok d pos0 G p (skip z1) (a ++ tok1) s2 need state); auto.
+    intros g _ H0. apply Z.eqb_neq in E2. apply Z.eqb_neq in E4. apply HGo; assumption.
 Qed.
 
 (* --- Next --------------------------------------------------------------------------------------- *)
+Lemma slice_mid3 (x y z : list Z) : slice (x ++ y ++ z) (len x) (len x + len y) = y.
+Proof. apply slice_mid. Qed.
+
 Theorem next_ok d p : json_inv d p -> step_ok d (lpos (pz p)) p (next p).
 Proof.
-  intros (a & tok & s & Hd & Hc & Hok & Herr). unfold next.
+  intros (a & tok & s & Hd & Hc & Hok & Herr). unfold step_ok, next.
   destruct (move_ws_spec _ _ _ _ Hc) as (z0 & Hws & H0). rewrite Hws. cbn [option_bind].
   set (w := takew is_ws s) in *. set (s0 := dropw is_ws s) in *.
   assert (Hs : s = w ++ s0) by (unfold w, s0; rewrite takew_dropw; reflexivity).
+  assert (Hww : wsl w) by apply takew_all.
   rewrite (cur3_pk0 _ _ _ _ H0). cbn [option_bind].
   destruct (stack_ok_top _ Hok) as (state & Htop & Hrange). rewrite Htop. cbn [option_bind].
   pose proof (cur3_lpos _ _ _ _ Hc) as Hp.
   pose proof (len_nonneg w) as Hlw.
   unfold next_comma.
   destruct (hd0 s0 =? 44) eqn:E44.
-  - destruct (negb (state =? S_Array) && negb (state =? S_ObjectKey)); cbn [option_bind].
+  - destruct (negb (state =? S_Array) && negb (state =? S_ObjectKey)) eqn:Est; cbn [option_bind].
     + eapply fail_ok; [exact H0| |exact Hok| |apply sr_err|left; reflexivity].
       * rewrite Hd, Hs. rewrite <- !app_assoc. reflexivity.
       * rewrite (cur3_lpos _ _ _ _ H0), len_app. lia.
@@ -394,12 +512,34 @@ Proof.
       rewrite Hs1 in H0. pose proof (cur3_mv1 _ _ _ _ _ H0) as H1.
       destruct (move_ws_spec _ _ _ _ H1) as (z1 & Hws1 & H1'). rewrite Hws1. cbn [option_bind].
       rewrite (cur3_pk0 _ _ _ _ H1'). cbn [option_bind].
-      apply (next_body_ok d _ p z1 a _ _ false state H1'); auto.
-      * rewrite Hd, Hs, Hs1. rewrite <- !app_assoc. cbn [app]. do 4 f_equal.
-        rewrite takew_dropw. reflexivity.
-      * rewrite !len_app. pose proof (len_nonneg (takew is_ws s1)). change (len [44]) with 1. lia.
-      * right. rewrite !len_app. pose proof (len_nonneg (takew is_ws s1)). change (len [44]) with 1. lia.
-  - cbn [option_bind]. apply (next_body_ok d _ p z0 a _ _ (pneed p) state H0); auto.
+      set (w1 := takew is_ws s1) in *.
+      assert (Hd1 : d = a ++ (((tok ++ w) ++ [44]) ++ w1) ++ dropw is_ws s1).
+      { rewrite Hd, Hs, Hs1. rewrite <- !app_assoc. cbn [app]. do 4 f_equal.
+        unfold w1. rewrite takew_dropw. reflexivity. }
+      apply (next_body_ok d _ _ p z1 a _ _ false state H1'); auto.
+      * rewrite !len_app. pose proof (len_nonneg w1). change (len [44]) with 1. lia.
+      * right. rewrite !len_app. pose proof (len_nonneg w1). change (len [44]) with 1. lia.
+      * intros g _. exists (w ++ 44 :: w1). split; [|split].
+        -- rewrite Hp. rewrite Hd1.
+           replace (a ++ (((tok ++ w) ++ [44]) ++ w1) ++ dropw is_ws s1)
+             with ((a ++ tok) ++ (w ++ 44 :: w1) ++ dropw is_ws s1)
+             by (rewrite <- !app_assoc; cbn [app]; reflexivity).
+           replace (len (a ++ ((tok ++ w) ++ [44]) ++ w1)) with (len (a ++ tok) + len (w ++ 44 :: w1))
+             by (rewrite !len_app, !len_cons, ?len_nil; lia).
+           rewrite <- len_app. apply slice_mid3.
+        -- rewrite Hp. rewrite !len_app, !len_cons, ?len_nil. lia.
+        -- right. exists w, w1. split; [reflexivity|]. split; [exact Hww|]. split; [apply takew_all|].
+           rewrite Htop. unfold S_Array, S_ObjectKey in *.
+           destruct (Z.eqb_spec state 3); [left; congruence|]. destruct (Z.eqb_spec state 1); [right; congruence|].
+           exfalso. cbn in Est. discriminate.
+  - cbn [option_bind]. apply (next_body_ok d _ _ p z0 a _ _ (pneed p) state H0); auto.
     + rewrite Hd, Hs. rewrite <- !app_assoc. reflexivity.
     + rewrite len_app. lia.
+    + intros g Hg. exists w. split; [|split].
+      * rewrite Hp. rewrite Hd, Hs.
+        replace (a ++ tok ++ w ++ s0) with ((a ++ tok) ++ w ++ s0) by (rewrite <- !app_assoc; reflexivity).
+        replace (len (a ++ tok ++ w)) with (len (a ++ tok) + len w) by (rewrite !len_app; lia).
+        rewrite <- len_app. apply slice_mid3.
+      * rewrite Hp. rewrite !len_app. lia.
+      * left. split; [exact Hww|exact Hg].
 Qed.
